@@ -97,6 +97,16 @@ def run(ck):
         bad = [x for x in exits if x.kind != "throw"]
         ck.ob("C07-R3", "onReady/writable-arm->asyncWriteImpl", not bad and not missing, "%s:%s" % (g.file, b.term.get("l")), g,
               "writable event handled without resuming the drain" if (bad or missing) else "asyncWriteImpl(fd) on every non-throwing path")
+        # nothing may reduce the interest set after the drain: a would-block inside asyncWriteImpl re-arms Read|Write, and a later
+        # modifyFd(Read) in the caller would silently cancel it (the rest of the response would stay queued forever)
+        for d_ in [e for e in g.events("call") if is_drain(e) and cfg.edge_dominates(g, b.id, 0, e)]:
+            later = [e for e in cfg.events_after(g, d_, stop=lambda e: False) if e["k"] == "call" and (e.get("callee") or "") == "Pistache::Aio::Reactor::modifyFd"
+                     and not lib.refs_enumerator(e, "Pistache::Polling::NotifyOn::Write") and e.block not in heads]
+            # only events of the same loop iteration: stop at the loop head
+            same_iter = [e for e in cfg.events_after(g, d_, edge_ok=lambda blk, k, succ: succ not in heads) if e in later]
+            ck.ob("C07-R3", "onReady/no-interest-drop-after-drain", not same_iter, d_.loc, g,
+                  "write interest is reset to Read before the drain, never after it" if not same_iter else
+                  "modifyFd without NotifyOn::Write at %s runs after asyncWriteImpl: it cancels the write interest armed by a would-block" % same_iter[0].loc)
     # R3b: arming reaches the kernel
     for m in prog.find("Pistache::Aio::Reactor::modifyFd", 2):
         chain = lib.reaches_external(prog, m, {"epoll_ctl"})
